@@ -94,8 +94,8 @@ func Finish(id, level, tier string, cov map[string]any, assumptions []string, fa
 		"violations":  violations,
 	}
 	b, _ := json.MarshalIndent(ev, "", " ")
-	os.MkdirAll(filepath.Join(root, "evidence"), 0o755)
-	if err := os.WriteFile(filepath.Join(root, "evidence", id+".json"), append(b, '\n'), 0o644); err != nil {
+	os.MkdirAll(filepath.Join(outRoot(), "evidence"), 0o755)
+	if err := os.WriteFile(filepath.Join(outRoot(), "evidence", id+".json"), append(b, '\n'), 0o644); err != nil {
 		fmt.Fprintln(os.Stderr, "evidence:", err)
 		return 2
 	}
@@ -113,10 +113,20 @@ func Finish(id, level, tier string, cov map[string]any, assumptions []string, fa
 	return 0
 }
 
+// outRoot is where evidence and replays are written: /verif, or the scratch
+// directory named by VERIF_OUT_ROOT (used by bin/mutate so that a run against a
+// deliberately broken tree never overwrites the real evidence).
+func outRoot() string {
+	if r := os.Getenv("VERIF_OUT_ROOT"); r != "" {
+		return r
+	}
+	return root
+}
+
 func indent(s string) string { return strings.ReplaceAll(s, "\n", "\n  ") }
 
 func writeReplay(id, tier, key string, fs []Failure) string {
-	dir := filepath.Join(root, "replays", id)
+	dir := filepath.Join(outRoot(), "replays", id)
 	os.MkdirAll(dir, 0o755)
 	h := sha1.Sum([]byte(key))
 	path := filepath.Join(dir, fmt.Sprintf("%x.json", h[:6]))
